@@ -66,7 +66,7 @@ func RunProperty(repo, tier, prop string, seed int64) (*core.Report, error) {
 }
 
 func LoadMutants(verif string) ([]Mutant, error) {
-	files, _ := filepath.Glob(filepath.Join(verif, "mutants", "*.json"))
+	files, _ := filepath.Glob(filepath.Join(verif, "mutants", "c[0-9][0-9].json"))
 	sort.Strings(files)
 	var out []Mutant
 	for _, f := range files {
